@@ -192,7 +192,62 @@ def run(prog, tier):
                        '%s is allocated with %s and never filled in this function: the caller receives recycled heap content, so results '
                        'depend on the call history' % (field, rhs['callee']), why='filled (loop / memcpy) or zero-allocated')
     failed_mutators(prog, chk, tier)
+    mutators_only_add(prog, chk)
+    no_overwrite_diagnostic(prog, chk, tier)
     return chk
+
+
+def mutators_only_add(prog, chk):
+    """(5b) an insertion adds entries; it does not rewrite the entries that were in the collection before (they belong to the library's
+    tables when the collection is the built-in one).  Decided on the loops of the two inserting mutators: a loop that stores into
+    <array>->crystal[i].<field> must start at the local that holds the entry count on entry, never at 0.  (Recomputing the volume of
+    every entry is not idempotent on the built-in table: its cells are float constants, F29.)"""
+    from rules.c14 import holds_entry_count
+    n = 0
+    for name in ('Crystal_AddCrystal', 'Crystal_ReadFile'):
+        f = prog.func(name, required=False)
+        if f is None:
+            continue
+        for lp in [x for x in walk(f['body']) if x.get('k') == 'ForStmt']:
+            iv = [x for x in walk(lp.get('inc') or {}) if x.get('k') == 'DeclRefExpr']
+            if not iv:
+                continue
+            i = iv[0]['name']
+            stores = [x for x in walk(lp.get('body') or {}) if x.get('k') in ('BinaryOperator', 'CompoundAssignOperator') and x.get('op', '').endswith('=') and
+                      x.get('op') not in ('==', '!=', '<=', '>=') and re.search(r'(->|\.)crystal\[%s\]' % re.escape(i), show(x['c'][0]))]
+            if not stores:
+                continue
+            n += 1
+            start = None
+            for a_ in walk(lp.get('init') or {}):
+                if a_.get('k') == 'BinaryOperator' and a_.get('op') == '=':
+                    start = strip_casts(a_['c'][1])
+            ok = start is not None and start.get('k') == 'DeclRefExpr' and start.get('cls') == 'local' and holds_entry_count(f, start['name'])
+            chk.decide(ok, 'mutator-only-adds', f['unit'], name, 'loop storing %s' % show(stores[0]['c'][0])[:50], '%s:%d' % (f['rel'], lp['ln']),
+                       'the loop rewrites %s of every entry from %s on, i.e. also of the crystals that were in the collection before the call: an insertion '
+                       'into the built-in collection then changes what later queries on the other built-in crystals return' % (
+                           show(stores[0]['c'][0])[:60], show(start) if start is not None else '?'),
+                       why='starts at the entry count: only entries added by this call are written')
+    chk.note('mutator loops that store into collection entries: %d' % n)
+
+
+def no_overwrite_diagnostic(prog, chk, tier):
+    """(6) standard streams: the error mechanism prints "xrl_error set over the top of a previous xrl_error" on stderr when an error is
+    stored into a slot that already holds one.  That diagnostic is reachable from a query exactly when some path sets the caller's
+    slot twice - the per-path typestate that rules/c03.py decides (O3-set-once), read here as the stderr clause."""
+    from rules import c03
+    shim = c03.run(prog, tier)
+    n = 0
+    for rule, inst, why, loc in shim.held:
+        if rule == 'O3-set-once':
+            n += 1
+    bad = [v for v in shim.violations if v['rule'] == 'O3-set-once']
+    for v in bad:
+        chk.bad('no-stderr-diagnostic', v['unit'], v['function'], v['instance'], v['loc'],
+                'this path stores a second error into the caller\'s slot: the overwrite diagnostic is printed on stderr by a plain query: ' + v['message'])
+    if not bad:
+        chk.ok('no-stderr-diagnostic', 'all functions', 'no path stores an error into a slot that may already hold one (%d path families)' % n, 'src')
+    chk.floor('error-setting path families examined', n + len(bad), 300)
 
 
 def failed_mutators(prog, chk, tier):
